@@ -751,6 +751,10 @@ class World:
         tol = regime["tol"]
         if op == "box" and tol is not None and tol.curved:
             return False
+        if op == "moment" and step.get("nnodes") is not None:
+            # a user-chosen quadrature order is in general not exact: the value then depends on
+            # how the boundary is cut (deep-copy twin and answer stability still apply)
+            return False
         if op == "moment" and tol is not None and tol.curved:
             # only where the library's own quadrature is exact for the integrand
             deg = max(len(s) - 1 for n in [step["a"]] for ch in kernel.chains_of(self.slots[n].V) for s in ch)
